@@ -1,5 +1,6 @@
 import WS.Props.C02
 import WS.Props.C03
+import WS.Proofs.Writer
 /-
   C01 — Message round-trip fidelity.
 -/
@@ -19,19 +20,19 @@ theorem roundtrip (inf : Inflate) (wcfg : WCfg) (rtakeover : Bool) (ops : List W
     readStream inf { client := !wcfg.client, flate := wcfg.flate, takeover := rtakeover, limit := -1 } []
         (writerBytes wcfg ops keys) =
       (ops.map opEvents).flatten ++ [.fail .io] := by
-  sorry
+  exact WS.Proofs.Writer.roundtrip inf wcfg rtakeover ops keys hwf hnc hctl hk hlen hcodec
 
 /-- the compression tail: after any sequence of writes, what trimLastFourBytesWriter passed on
 followed by the tail it withholds is exactly what was written, and it withholds min 4 total. -/
 theorem trim_spec (chunks : List Bytes) :
     (trimLastFour chunks).1 ++ (trimLastFour chunks).2 = chunks.flatten ∧
     (trimLastFour chunks).2.length = min 4 chunks.flatten.length := by
-  sorry
+  exact WS.Proofs.Writer.trim_spec chunks
 
 /-- the sliding window after any sequence of writes is the last min(32768, total) bytes written
 (this covers histories longer than the window). -/
 theorem slide_spec (ws : List Bytes) :
     ws.foldl slide [] = ws.flatten.drop (ws.flatten.length - windowSize) := by
-  sorry
+  exact WS.Proofs.Writer.slide_spec ws
 
 end WS.Props.C01
